@@ -790,4 +790,73 @@ def keysOfC : List CS → List CKey
 
 def cseCommonC (s1 s2 : List CS) : List CKey := (keysOfC s1).filter fun k => (keysOfC s2).contains k
 
+/-! ## Closed-form ("algebraic") loop elimination (`loop_algebraic_optimization.rs:75-160`)
+
+The loop is replaced by straight-line code only if (0) start, stride and bound of the guarded counter
+are literals, (1) it has NO loop variable that is not a basic induction variable, (2) NO derived
+induction variable, (3) NO statement left in the body, and the trip count is known. -/
+
+inductive BrkVal where
+  | counter
+  | giv (k : Nat)          -- a general basic induction variable (index into `givs`)
+  | lit (v : Int)
+  | outer (v : Int)        -- a name defined before the loop (its value)
+  | inner                  -- a non-induction loop variable or a name defined in the body
+  deriving Repr, DecidableEq
+
+structure AlgLoop where
+  g : Guard
+  i0 : Int
+  step : Int
+  bound : Int
+  literals : Bool          -- start, stride and bound are literals
+  nonIv : Nat              -- number of loop variables that are not basic induction variables
+  derived : Nat
+  stmts : Nat
+  givs : List (Int × Int)  -- general induction variables: (initial value, stride)
+  brk : Option BrkVal
+  deriving Repr
+
+inductive AlgOut where
+  | declined
+  | removed                -- no break collector: the loop disappears
+  | value (v : Int)        -- the break collector is bound to this value
+  | readsInner             -- the emitted statement reads a name that only existed inside the loop
+  deriving Repr, DecidableEq
+
+/-- the emitted code, with the decline conditions selected by the three flags (all `true` = the code) -/
+def algOptWith (c1 c2 c3 : Bool) (A : AlgLoop) : AlgOut :=
+  if !A.literals || (c1 && A.nonIv != 0) || (c2 && A.derived != 0) || (c3 && A.stmts != 0) then .declined
+  else match tripCount A.g A.i0 A.step A.bound with
+    | .count n =>
+      match A.brk with
+      | none => .removed
+      | some .counter => .value (A.i0 + A.step * n)
+      | some (.lit v) => .value v
+      | some (.outer v) => .value v
+      | some (.giv k) =>
+        match A.givs[k]? with
+        | some (init, st) => .value (addT init (mulT st n))
+        | none => .readsInner
+      | some .inner => .readsInner
+    | _ => .declined
+
+def algOpt (A : AlgLoop) : AlgOut := algOptWith true true true A
+
+/-- what a well-formed loop can break with: an inner name exists only if the loop has a non-induction
+loop variable, a derived variable or a body statement defining it; a general IV index is in range -/
+def AlgLoop.wf (A : AlgLoop) : Prop :=
+  (A.brk = some .inner → A.nonIv ≠ 0 ∨ A.derived ≠ 0 ∨ A.stmts ≠ 0) ∧
+  (∀ k, A.brk = some (.giv k) → k < A.givs.length)
+
+/-- the value the break expression has when the loop is left after `n` iterations -/
+def AlgLoop.brkAt (A : AlgLoop) (n : Nat) : Option Int :=
+  match A.brk with
+  | none => none
+  | some .counter => some (iterW A.i0 A.step n)
+  | some (.lit v) => some v
+  | some (.outer v) => some v
+  | some (.giv k) => (A.givs[k]?).map fun p => iterW p.1 p.2 n
+  | some .inner => none
+
 end SamVerif.Opt
